@@ -152,3 +152,26 @@ Theorem C06_checker_accepts_model : forall s ws,
   chk_C06 s (source s) c10 c00 k10 k00 = 0.
 Proof. exact CompLinesTree.C06_tree. Qed.
 Print Assumptions C06_checker_accepts_model.
+
+(* ---- composites over children that contain CachedSource nodes in ANY warm state: the checker
+   compares the composite with a reference computed from the children's OWN observed streams, so
+   even the K2 shape (a ReplaceSource above a warm cache) satisfies the property ---- *)
+From RS Require Proofs.ColdCache Proofs.WarmTreeDefs Proofs.BoundsPos Proofs.CompWarmReplace Proofs.CompWarmConcat.
+From RS Require Import Checkers.ChkHist.
+Theorem C06_replace_over_warm_caches : forall inner rs ws,
+  ColdCache.ids_distinct inner -> k2_shape inner = false ->
+  RStreamTree.rshape (ColdCache.uncache inner) = true -> treeA (SReplace inner rs) = true ->
+  BoundsPos.tiny (ColdCache.uncache (SReplace inner rs)) = true ->
+  let '(c10, c00, k10, k00) := api_comp (SReplace inner rs) ws in
+  bindings_consistent (flat_map contents_of_events k10) = true ->
+  chk_C06 (SReplace inner rs) (source (SReplace inner rs)) c10 c00 k10 k00 = 0.
+Proof. exact CompWarmReplace.C06_replace_warm_tiny. Qed.
+Print Assumptions C06_replace_over_warm_caches.
+
+Theorem C06_concat_over_warm_caches : forall cs ws,
+  ColdCache.ids_distinct (SConcat cs) -> WarmTreeDefs.cls (SConcat cs) ->
+  let '(c10, c00, k10, k00) := api_comp (SConcat cs) ws in
+  bindings_consistent (flat_map contents_of_events k10) = true ->
+  chk_C06 (SConcat cs) (source (SConcat cs)) c10 c00 k10 k00 = 0.
+Proof. exact CompWarmConcat.C06_concat_warm_cls. Qed.
+Print Assumptions C06_concat_over_warm_caches.
